@@ -8,6 +8,7 @@ import (
 	"bytes"
 	"errors"
 	"io"
+	"net"
 	"runtime"
 	"strconv"
 	"sync"
@@ -83,13 +84,15 @@ type World struct {
 	Perturb func(cp, role string) int
 	// useRoles makes control points resolve the goroutine's role (costs a stack parse per control point).
 	useRoles int32
+	// Base is the instant of virtual time zero (Epoch unless set before the client is created).
+	Base time.Time
 }
 
 // UseRoles switches role resolution on. KeepLog and Perturb must be set before the client is created.
 func (w *World) UseRoles() { atomic.StoreInt32(&w.useRoles, 1) }
 
 // NewWorld makes a world at virtual time zero.
-func NewWorld() *World { return &World{roles: map[int64]string{}, sig: 1469598103934665603} }
+func NewWorld() *World { return &World{roles: map[int64]string{}, sig: 1469598103934665603, Base: Epoch} }
 
 // Tick advances and returns the logical clock.
 func (w *World) Tick() int64 { return atomic.AddInt64(&w.stamp, 1) }
@@ -98,7 +101,7 @@ func (w *World) Tick() int64 { return atomic.AddInt64(&w.stamp, 1) }
 func (w *World) Stamp() int64 { return atomic.LoadInt64(&w.stamp) }
 
 // Now is the virtual time.
-func (w *World) Now() time.Time { return Epoch.Add(time.Duration(atomic.LoadInt64(&w.vnow))) }
+func (w *World) Now() time.Time { return w.Base.Add(time.Duration(atomic.LoadInt64(&w.vnow))) }
 
 // VNow is the virtual time in ns since Epoch.
 func (w *World) VNow() int64 { return atomic.LoadInt64(&w.vnow) }
@@ -222,6 +225,34 @@ type WriteRec struct {
 	Goid   int64
 }
 
+// scriptedErr is a scripted failure dressed as the errors real connections return: it satisfies net.Error.
+type scriptedErr struct {
+	what    string
+	timeout bool
+	base    error
+}
+
+func (e *scriptedErr) Error() string   { return e.what + ": " + e.base.Error() }
+func (e *scriptedErr) Timeout() bool   { return e.timeout }
+func (e *scriptedErr) Temporary() bool { return e.timeout }
+func (e *scriptedErr) Unwrap() error   { return e.base }
+
+// DressError wraps base in one of the shapes connection errors come in (kind mod 4): as it is; a net.Error whose
+// Timeout() is true (an expired write deadline); a *net.OpError around that; a net.Error that is not a timeout. All
+// of them still match base with errors.Is.
+func DressError(base error, kind int) error {
+	switch kind % 4 {
+	case 1:
+		return &scriptedErr{"i/o timeout", true, base}
+	case 2:
+		return &net.OpError{Op: "write", Net: "udp", Err: &scriptedErr{"i/o timeout", true, base}}
+	case 3:
+		return &scriptedErr{"connection refused", false, base}
+	default:
+		return base
+	}
+}
+
 // Conn is the scripted connection.
 type Conn struct {
 	W  *World
@@ -229,20 +260,27 @@ type Conn struct {
 
 	closed     chan struct{}
 	closeOnce  sync.Once
+	readShut   chan struct{}
+	shutOnce   sync.Once
 	CloseCalls int32
 	CloseErr   error
 
 	mu         sync.Mutex
 	writes     []WriteRec
 	failNext   int
+	failed     int   // scripted failures delivered so far
 	afterClose int32 // writes attempted after Close
+	// HalfCloses counts CloseRead/CloseWrite calls (a connection the client does not own must not see any).
+	HalfCloses int32
 	// ReaderGone counts deliveries that nobody took within the watchdog although the connection was open.
 	ReaderGone int32
 	readers    int32
 }
 
 // NewConn makes a connection.
-func NewConn(w *World) *Conn { return &Conn{W: w, in: make(chan []byte), closed: make(chan struct{})} }
+func NewConn(w *World) *Conn {
+	return &Conn{W: w, in: make(chan []byte), closed: make(chan struct{}), readShut: make(chan struct{})}
+}
 
 // Read blocks until the monitor delivers a datagram or the connection is closed/released.
 func (c *Conn) Read(p []byte) (int, error) {
@@ -251,6 +289,8 @@ func (c *Conn) Read(p []byte) (int, error) {
 	case d := <-c.in:
 		return copy(p, d), nil
 	case <-c.closed:
+		return 0, io.EOF
+	case <-c.readShut:
 		return 0, io.EOF
 	}
 }
@@ -271,15 +311,19 @@ func (c *Conn) Write(b []byte) (int, error) {
 	default:
 	}
 	c.mu.Lock()
+	kind := 0
 	if c.failNext > 0 {
 		c.failNext--
 		rec.Failed = true
+		// the shape of the error rotates with the history (plain, timeout net.Error, *net.OpError, non-timeout net.Error)
+		kind = c.failed + len(c.writes)
+		c.failed++
 	}
 	c.writes = append(c.writes, rec)
 	c.mu.Unlock()
 	c.W.CP("conn.Write.after")
 	if rec.Failed {
-		return 0, ErrScriptedWrite
+		return 0, DressError(ErrScriptedWrite, kind)
 	}
 
 	return len(b), nil
@@ -292,6 +336,22 @@ func (c *Conn) Close() error {
 	c.closeOnce.Do(func() { close(c.closed) })
 
 	return c.CloseErr
+}
+
+// CloseRead is the half-close real TCP/TLS connections offer. It is counted and wakes the reader like the real one.
+func (c *Conn) CloseRead() error {
+	c.W.CP("conn.CloseRead")
+	atomic.AddInt32(&c.HalfCloses, 1)
+	c.shutOnce.Do(func() { close(c.readShut) })
+
+	return nil
+}
+
+// CloseWrite is the other half; counted only.
+func (c *Conn) CloseWrite() error {
+	atomic.AddInt32(&c.HalfCloses, 1)
+
+	return nil
 }
 
 // ReleaseRead unblocks a pending Read without counting as a Close (WithNoConnClose precondition).
